@@ -167,8 +167,11 @@ def run(ctx):
     pairs = []
 
     def add(label, e1, e2, tg, nontrivial=True, sample=None):
-        p = EQ.Pair(real(e1).make_real(), real(e2).make_real(), tg, label,
-                    special=SPECIAL, frac="e")
+        a, b = real(e1).make_real(), real(e2).make_real()
+        if max(len(a), len(b)) > (250 if quick else 1200):
+            ctx.dist["skipped-large"] = ctx.dist.get("skipped-large", 0) + 1
+            return
+        p = EQ.Pair(a, b, tg, label, special=SPECIAL, frac="e")
         pairs.append(p)
         ctx.case(key=(label, str(getattr(e1, "sympy", e1))[:400]),
                  nontrivial=nontrivial, sample=sample,
@@ -223,6 +226,12 @@ def run(ctx):
                                     .make_real(), ictx)
         except adcio.Unsupported as ex:
             ctx.note(f"expand case outside the fragment: {ex}")
+            continue
+        if len(p_lib) > (250 if quick else 1200):
+            # keep the kernel evaluation small: huge expansions (powers of
+            # long intermediates) are left to smaller instances
+            ctx.dist["expand:skipped-large"] = \
+                ctx.dist.get("expand:skipped-large", 0) + 1
             continue
         tgc = [ictx.conv(x) for x in tg]
         pr = EQ.Pair(None, None, [], f"expand:{'full' if fully else 'once'}:"
